@@ -68,6 +68,7 @@ def _run_case(case, work, nproc_runs):
         os.makedirs(cwd, exist_ok=True)
         env_extra = {"VERIF_PAD_%d" % j: "p" * (997 * (j + 1)) for j in range(r * 5)}
         env_extra["VERIF_PAD"] = "x" * (1 + r * 7919)
+        env_extra["RUST_BACKTRACE"] = "0"
         rc, so, se = cli.run_cli(args, cwd=cwd, env_extra=env_extra, timeout=300)
         res["processes"] += 1
         if rc is None:
@@ -105,25 +106,23 @@ def _run_case(case, work, nproc_runs):
     before = _snapshot(out)
     cwd = os.path.join(work, "cwdc", "a", "b")
     os.makedirs(cwd, exist_ok=True)
-    rc, so, se = cli.run_cli(args + ["--check"], cwd=cwd, env_extra={"VERIF_PAD": "y" * 3001}, timeout=300)
+    rc, so, se = cli.run_cli(args + ["--check"], cwd=cwd, env_extra={"VERIF_PAD": "y" * 3001, "RUST_BACKTRACE": "0"}, timeout=300)
     res["processes"] += 1
     res["check_rc"] = rc
     res["files"] += len(before)
     res["bytes"] += sum(len(v) for v in before.values())
     if rc is None:
         res["skipped"] = "timeout in --check"
+    elif rc != 0 and res["violations"]:
+        pass  # consequence of the nondeterminism already reported for this case
     elif rc != 0:
-        last = [l for l in se.strip().splitlines() if l.strip()][-1:] or ["?"]
-        msg = last[0]
-        if "not up to date" in msg:
-            m = re.search(r"not up to date: (.*)$", msg)
-            k = "not-up-to-date:" + (_kind(m.group(1)) if m else "?")
-        elif "failed to read" in se:
-            m = re.search(r'failed to read "([^"]*)"', se)
-            k = "missing:" + (_kind(m.group(1)) if m else "?")
-            if m and m.group(1).endswith(".template"):
-                k = "missing:.template"
-        elif "line endings" in msg:
+        m = re.search(r"not up to date: (.*)", se)
+        m2 = re.search(r'failed to read "([^"]*)"', se)
+        if m:
+            k = "not-up-to-date:" + _kind(m.group(1).strip())
+        elif m2:
+            k = "missing:" + (".template" if m2.group(1).endswith(".template") else _kind(m2.group(1)))
+        elif "differs only in line endings" in se:
             k = "line-endings"
         else:
             k = "rc%s" % rc
@@ -170,7 +169,7 @@ def run(tier, seed, replay):
                           "world": r.get("world"), "key": "replay", "input": r.get("input", "replay")})
             nruns = 8
         else:
-            n_random = 500 if thorough else 26
+            n_random = 500 if thorough else 16
             wdir = os.path.join(scratch, "worlds")
             idx_p = os.path.join(scratch, "worlds.json")
             _tool(bindir, ["worlds", "--seed", str(seed), "--n", str(n_random), "--profile", "large", "--dir", wdir, "--out", idx_p],
@@ -191,7 +190,7 @@ def run(tier, seed, replay):
             big = [c for c in corpus if c["is_dir"] or (c.get("interfaces") or 0) >= 4]
             small = [c for c in corpus if c not in big]
             pick = list(big)
-            n_small = len(small) if thorough else 8
+            n_small = len(small) if thorough else 5
             while small and n_small > 0:
                 pick.append(small.pop(rng.below(len(small))))
                 n_small -= 1
